@@ -44,7 +44,8 @@ def generate(seed, tier):
         spec = gen_instance(rng, max_jobs=4, max_machines=4, max_ops=4)
         n = n_ops(spec)
         k = n if rng.random() < 0.5 else rng.randint(0, n)
-        return {"prop": PROP, "kind": "chart", "cfg": {"instance": spec, "xlim": rng.choice([None, None, "makespan+", 50]), "cmap": rng.choice(["viridis", "tab10"])},
+        return {"prop": PROP, "kind": "chart", "cfg": {"instance": spec, "xlim": rng.choice([None, None, "makespan+", 50]), "cmap": rng.choice(["viridis", "tab10"]),
+                                                       "two_charts": rng.random() < 0.3},
                 "ops": [["dispatch", rng.randrange(64), rng.randrange(64), 0] for _ in range(k)]}
     long = r > 0.86
     if long:
@@ -55,6 +56,7 @@ def generate(seed, tier):
         n = rng.randint(1, min(15, n_ops(spec)))
     api = rng.choice(["gif", "gif", "video", "creator_gif", "solver_gif"])
     cfg = {"instance": spec, "api": api, "plot": "real" if (not long and n <= 5 and rng.random() < 0.25) else "stub",
+           "earlier_episode": rng.randint(1, 6) if rng.random() < 0.3 else 0,
            "listdir_seed": rng.randrange(1 << 30) if rng.random() < 0.6 else None,
            "stale": rng.choice([0, 0, 3, 12, 105]) if rng.random() < 0.4 else 0,
            "remove_frames": rng.random() < 0.7, "plot_current_time": rng.random() < 0.5,
@@ -120,6 +122,15 @@ def execute_chart(case, ctx):
         ctx.count("dispatch")
     ctx.step = len(case["ops"])
     mk = m.makespan()
+    other = None
+    if len(m.hist) >= 2 and cfg.get("two_charts"):
+        # a second chart (of a different, shorter schedule) is drawn while the first is still open
+        d2 = Dispatcher(build(cfg["instance"]))
+        m2 = Model(jobs)
+        for (j, p, mm, _, _) in m.hist[: len(m.hist) // 2]:
+            d2.dispatch(d2.instance.jobs[j][p], mm)
+            m2.dispatch(j, p, mm)
+        other = (d2, m2)
     xlim = cfg["xlim"]
     if xlim == "makespan+":
         xlim = mk + 7
@@ -130,8 +141,15 @@ def execute_chart(case, ctx):
         except Exception as e:  # noqa: BLE001
             ctx.fail("plot_raised", f"plot_gantt_chart raised {short_exc(e)} on a schedule with {len(m.hist)} operations, makespan {mk}")
             return
+    fig2 = None
     try:
-        when = f"plot_gantt_chart after {len(m.hist)} dispatches (xlim={xlim})"
+        if other is not None:
+            with warnings.catch_warnings():
+                warnings.simplefilter("ignore")
+                fig2, ax2 = plot_gantt_chart(other[0].schedule, cmap_name=cfg["cmap"])
+            check_bars(ctx, ax2, other[1].hist, jobs, f"second chart ({len(other[1].hist)} dispatches) drawn while the first is open")
+            ctx.probe("two_charts_alive")
+        when = f"plot_gantt_chart after {len(m.hist)} dispatches (xlim={xlim})" + (" re-read after a second chart was drawn" if other else "")
         check_bars(ctx, ax, m.hist, jobs, when)
         end = xlim if xlim is not None else mk
         if end > 0:
@@ -144,6 +162,8 @@ def execute_chart(case, ctx):
             ctx.probe("zero_duration_bar")
     finally:
         plt.close(fig)
+        if fig2 is not None:
+            plt.close(fig2)
     ctx.sim_time = mk
 
 
@@ -213,6 +233,21 @@ def execute_anim(case, ctx):
     creator = GanttChartCreator(d) if cfg["api"] == "creator_gif" else None
     hist_obs = d.create_or_get_observer(HistoryObserver)
     m = Model(jobs)
+    if cfg.get("earlier_episode"):
+        # an earlier (abandoned) episode on the same dispatcher / creator, then reset(): the animation must show
+        # the history that was recorded after the reset
+        for k in range(cfg["earlier_episode"]):
+            ready = m.ready()
+            if not ready:
+                break
+            j, p = ready[(k * 5 + 1) % len(ready)]
+            mm = m.machines(j, p)[-1]
+            d.dispatch(inst.jobs[j][p], mm)
+            m.dispatch(j, p, mm)
+        d.reset()
+        m.reset()
+        ctx.fault("restart")
+        ctx.probe("animation_after_reset")
     for op in case["ops"]:
         ready = m.ready()
         if not ready:
